@@ -3,7 +3,7 @@ import re
 
 import mir
 import util
-from mir import peel, show, Unrecognised, field_chain
+from mir import peel, show, Unrecognised, field_chain, canon
 
 EXPLANATION = (
     "Static decision of the structural clauses of C10: (flush) typestate analysis over the CFG of every "
@@ -397,6 +397,17 @@ def rule_readfail(ctx):
                 if any(mir.strip_sites(peel(p[3], calls=False)) == var for p in f.args):
                     logged = True
         ctx.check('readfail', 'height-reported', logged, (b, et), 'the error message is formatted with the loop height')
+    # "end of chain" (Ok(None), on which the driver stops quietly and completes) may be answered only when the index has
+    # no record for the height; a block that is indexed but cannot be fetched (missing file, failed read) must be an Err
+    for t in prog.targets(fetch_cs):
+        nones = [d for d in t.ret_defs() if d[0] == 'assign' and canon(t.rvalue_expr(d[3])) == 'Result::Ok{0: Option::None{}}']
+        for d in nones:
+            gs = util.path_guard_sets(t, d[1])
+            okn = all(any(re.match(r'^get\(self\.\w+, a2\) is None$', x) for x in g) for g in gs) and bool(gs)
+            ctx.check('readfail', 'end-of-chain-only-when-unindexed', okn, (t, d[1]), 'Ok(None) only under %s' % gs,
+                      bad_detail='Ok(None) is returned under %s: a block that is indexed but cannot be fetched ends the run quietly with exit 0' % gs)
+        if not nones:
+            ctx.ok('readfail', 'end-of-chain-only-when-unindexed', t, 'the fetch never answers Ok(None)')
     # inside the fetch: errors of the read are propagated (covered crate-wide by C10.results); additionally the
     # fetch must not convert an Err of the reader into Ok(None)
     for t in prog.targets(fetch_cs):
@@ -450,5 +461,5 @@ def run(ctx):
     ctx.floor('flush', 12)
     ctx.floor('names', 25)
     ctx.floor('results', 300)
-    ctx.floor('readfail', 4)
+    ctx.floor('readfail', 5)
     ctx.floor('main', 5)
